@@ -25,8 +25,59 @@ def workdir() -> str:
     return _dir
 
 
-def make_cert(kind="ec", cn="localhost", serial=None, with_bc=True):
-    """Return (cert_der, key_pem)."""
+class CA:
+    """A private certificate authority (for clients that run CA verification next to TOFU)."""
+
+    def __init__(self, name="vf test CA"):
+        self.key = ec.generate_private_key(ec.SECP256R1())
+        subject = x509.Name([x509.NameAttribute(NameOID.COMMON_NAME, name)])
+        now = datetime.datetime.now(datetime.timezone.utc)
+        self.cert = (
+            x509.CertificateBuilder().subject_name(subject).issuer_name(subject).public_key(self.key.public_key())
+            .serial_number(x509.random_serial_number()).not_valid_before(now - datetime.timedelta(days=1))
+            .not_valid_after(now + datetime.timedelta(days=365))
+            .add_extension(x509.BasicConstraints(ca=True, path_length=None), critical=True)
+            .add_extension(x509.KeyUsage(digital_signature=True, key_cert_sign=True, crl_sign=True, content_commitment=False, key_encipherment=False,
+                                         data_encipherment=False, key_agreement=False, encipher_only=False, decipher_only=False), critical=True)
+            .sign(self.key, hashes.SHA256())
+        )
+        self.certfile = os.path.join(workdir(), f"ca{os.getpid()}_{id(self):x}.pem")
+        with open(self.certfile, "wb") as f:
+            f.write(self.cert.public_bytes(serialization.Encoding.PEM))
+
+
+_cas = {}
+
+
+def ca(name="vf test CA") -> CA:
+    if name not in _cas:
+        _cas[name] = CA(name)
+    return _cas[name]
+
+
+def make_cert(kind="ec", cn="localhost", serial=None, with_bc=True, issuer=None, sans=()):
+    """Return (cert_der, key_pem).  issuer: a CA -> a leaf signed by it (SAN = cn + sans, DNS names or IP addresses)."""
+    if issuer is not None:
+        import ipaddress
+
+        key = ec.generate_private_key(ec.SECP256R1()) if kind != "rsa" else rsa.generate_private_key(public_exponent=65537, key_size=2048)
+        now = datetime.datetime.now(datetime.timezone.utc)
+        names = []
+        for n in (cn,) + tuple(sans):
+            try:
+                names.append(x509.IPAddress(ipaddress.ip_address(n)))
+            except ValueError:
+                names.append(x509.DNSName(n))
+        cert = (
+            x509.CertificateBuilder().subject_name(x509.Name([x509.NameAttribute(NameOID.COMMON_NAME, cn)])).issuer_name(issuer.cert.subject)
+            .public_key(key.public_key()).serial_number(serial or x509.random_serial_number())
+            .not_valid_before(now - datetime.timedelta(days=1)).not_valid_after(now + datetime.timedelta(days=365))
+            .add_extension(x509.SubjectAlternativeName(names), critical=False)
+            .add_extension(x509.BasicConstraints(ca=False, path_length=None), critical=True)
+            .sign(issuer.key, hashes.SHA256())
+        )
+        key_pem = key.private_bytes(serialization.Encoding.PEM, serialization.PrivateFormat.PKCS8, serialization.NoEncryption())
+        return cert.public_bytes(serialization.Encoding.DER), key_pem
     if kind == "rsa":
         key = rsa.generate_private_key(public_exponent=65537, key_size=2048)
         alg = hashes.SHA256()
@@ -102,8 +153,8 @@ class Identity:
 
     _n = 0
 
-    def __init__(self, kind="ec", cn="localhost", tamper=None, serial=None, extra_chain=None):
-        der, key_pem = make_cert(kind, cn, serial=serial)
+    def __init__(self, kind="ec", cn="localhost", tamper=None, serial=None, extra_chain=None, issuer=None, sans=()):
+        der, key_pem = make_cert(kind, cn, serial=serial, issuer=issuer, sans=sans)
         self.kind = kind + (("-" + tamper) if tamper else "")
         if tamper == "bool":
             der = tamper_bool(der)
@@ -129,11 +180,11 @@ class Identity:
 _cache = {}
 
 
-def identity(name: str, kind="ec", cn="localhost", tamper=None, serial=None, extra_chain=None) -> Identity:
+def identity(name: str, kind="ec", cn="localhost", tamper=None, serial=None, extra_chain=None, issuer=None, sans=()) -> Identity:
     """Process-wide cache keyed by name."""
-    k = (name, kind, cn, tamper, serial, tuple(extra_chain or ()))
+    k = (name, kind, cn, tamper, serial, tuple(extra_chain or ()), id(issuer) if issuer else None, tuple(sans))
     if k not in _cache:
-        _cache[k] = Identity(kind, cn, tamper, serial=serial, extra_chain=extra_chain)
+        _cache[k] = Identity(kind, cn, tamper, serial=serial, extra_chain=extra_chain, issuer=issuer, sans=sans)
     return _cache[k]
 
 
